@@ -23,7 +23,7 @@ mutual
 /-- what an HTML5 tokenizer must find in the serialiser's output: one start tag per element with exactly its visible
     attribute names and *decoded* values, its end tag, and text as characters -/
 def toksNode (indent : Nat) : Node → List Tok
-  | .text d => if trimSpace d == [] then [] else (spaces indent ++ d).map .ch
+  | .text d => if blankText d then [] else (spaces indent ++ d).map .ch
   | .elem tag attrs kids =>
     match kidShape kids with
     | .none => (spaces indent).map .ch ++ [.startTag tag (visibleAttrs attrs) false, .endTag tag, .ch '\n']
